@@ -393,8 +393,9 @@ Lemma inv_local : forall w w' s h pend pend' exc c c',
   get_client w h = Some c -> get_client w' h = Some c' -> core c' = core c ->
   (forall i, i <> h -> get_client w' i = get_client w i) ->
   w_groups w' = w_groups w ->
-  (forall id, key_view id (c_group c) (sentof s h c') (pend' ++ c_queue c') =
-              key_view id (c_group c) (sentof s h c) (pend ++ c_queue c)) ->
+  (forall g id, c_group c = Some g ->
+     key_view id (Some g) (sentof s h c') (pend' ++ c_queue c') =
+     key_view id (Some g) (sentof s h c) (pend ++ c_queue c)) ->
   (c_group c = None -> forall id,
      nm_ok (pend ++ c_queue c) (key_sent id (sentof s h c) = None) ->
      nm_ok (pend' ++ c_queue c') (key_sent id (sentof s h c') = None)) ->
@@ -434,7 +435,7 @@ Proof.
     { destruct (Nat.eq_dec i h) as [->|Hne].
       - rewrite Hc' in Hi. inversion Hi; subst ci. rewrite effq_self.
         assert (Hg0 : c_group c = Some g) by (unfold core in Hcore; congruence).
-        rewrite <- Hg0, K1, Hg0, <- (effq_self h pend c). apply (v_view _ _ _ _ _ HV h c g id Hc Hg0).
+        rewrite (K1 g id Hg0), <- (effq_self h pend c). apply (v_view _ _ _ _ _ HV h c g id Hc Hg0).
       - rewrite (Ho i Hne) in Hi. rewrite effq_other by exact Hne.
         rewrite <- (effq_other h pend i ci Hne). apply (v_view _ _ _ _ _ HV i ci g id Hi Hgr). }
     destruct Hold as [H | [H | H]]; auto.
@@ -446,7 +447,7 @@ Lemma inv_drop_head : forall w s h a r exc c,
 Proof.
   intros w s h a r exc c HI Hc Ha.
   eapply (inv_local w w s h (a :: r) r exc c c HI Hc Hc); try reflexivity.
-  - intros id. unfold key_view. cbn [app fold_left]. rewrite act_step_nact by exact Ha. reflexivity.
+  - intros g id _. unfold key_view. cbn [app fold_left]. rewrite act_step_nact by exact Ha. reflexivity.
   - intros _ id. unfold nm_ok, nm_from. cbn [app fold_left]. rewrite nst_step_nact by exact Ha. auto.
   - cbn [app]. intros [E | H]; [subst a; discriminate Ha | exact H].
 Qed.
@@ -468,18 +469,20 @@ Proof.
     + reflexivity.
     + intros. apply get_client_send_other. assumption.
     + reflexivity.
-    + intros id. rewrite Eg. unfold key_view, sentof. cbn [c_out set_out c_queue app fold_left].
+    + intros g0 id E0. rewrite Eg in E0. inversion E0; subst g0.
+      unfold key_view, sentof. cbn [c_out set_out c_queue app fold_left].
       rewrite app_assoc, key_sent_app. cbn [fold_left act_step]. rewrite Egg. reflexivity.
     + intros E. congruence.
     + cbn [app c_queue set_out]. intros [E | H]; [discriminate E | exact H].
   - (* another group's event *)
     eapply (inv_local w w s h _ r None c c HI Hc Hc); try reflexivity.
-    + intros id. rewrite Eg. unfold key_view. cbn [app fold_left act_step]. rewrite Egg. reflexivity.
+    + intros g0 id E0. rewrite Eg in E0. inversion E0; subst g0.
+      unfold key_view. cbn [app fold_left act_step]. rewrite Egg. reflexivity.
     + intros E. congruence.
     + cbn [app]. intros [E | H]; [discriminate E | exact H].
   - (* in no group *)
     eapply (inv_local w w s h _ r None c c HI Hc Hc); try reflexivity.
-    + intros id. rewrite Eg. unfold key_view. cbn [app fold_left act_step]. reflexivity.
+    + intros g0 id E0. congruence.
     + intros _ id. unfold nm_ok, nm_from. cbn [app fold_left nst_step]. intros H.
       apply nm_from_dirty with (s := NClean) in H. exact H.
     + cbn [app]. intros [E | H]; [discriminate E | exact H].
@@ -504,7 +507,7 @@ Proof.
   - reflexivity.
   - intros. apply get_client_send_other. assumption.
   - reflexivity.
-  - intros id. unfold key_view, sentof. cbn [c_out set_out c_queue app fold_left].
+  - intros g0 id _. unfold key_view, sentof. cbn [c_out set_out c_queue app fold_left].
     rewrite app_assoc, key_sent_app. cbn [fold_left act_step]. reflexivity.
   - intros _ id. unfold sentof. cbn [c_out set_out c_queue]. rewrite app_assoc, key_sent_joined.
     unfold nm_ok, nm_from. cbn [app fold_left nst_step].
